@@ -907,7 +907,16 @@ func hSameMatch(s *mSession, fl *mFlow) bool {
 	const ue = 0x0A000001
 	nf := mExpectFilter(false, ue, fl)
 	for _, p := range s.PDRs {
-		if mExpectFilter(false, ue, p.Flow) == nf {
+		of := mExpectFilter(false, ue, p.Flow)
+		if of == nf {
+			return true
+		}
+		// Two filters on the same remote prefix and protocol whose port ranges overlap expand to wildcard entries with
+		// an identical (value, mask) key for the shared ports: the datapath keeps one entry per key, so the PDR that is
+		// written later takes those ports whatever the precedences say (recorded finding, shown by a family of its own).
+		ranged := func(f mFilter) bool { return !(f.SrcLo == 0 && f.SrcHi == 65535) }
+		if of.SrcIP == nf.SrcIP && of.SrcMask == nf.SrcMask && of.ProtoAny == nf.ProtoAny && of.Proto == nf.Proto &&
+			ranged(of) && ranged(nf) && of.SrcLo <= nf.SrcHi && nf.SrcLo <= of.SrcHi {
 			return true
 		}
 	}
